@@ -15,7 +15,7 @@ gvars == <<fam, e, d, q, salt>>
 M == 100003
 (* ---- pools ---- *)
 IntPool == << INT(<<0>>), INT(<<7>>), INT(<<0, 0, 7>>), INT(<<4, 2>>), INT(<<1, 2, 3, 4, 5, 6, 7, 8, 9>>), INT(<<2, 0, 2, 0>>),
-              INT(<<0, 0>>), INT(<<1, 0>>) >>
+              INT(<<0, 0>>), INT(<<1, 0>>), INT(<<0, 1, 0>>) >>
 DecPool == << DEC(<<1>>, <<>>), DEC(<<>>, <<5>>), DEC(<<1>>, <<5, 0>>), DEC(<<0, 0>>, <<5, 0>>), DEC(<<0>>, <<0>>),
               DEC(<<3>>, <<1, 4, 1, 5, 9>>), DEC(<<>>, <<0, 0, 1>>), DEC(<<1, 2, 0>>, <<>>), DEC(<<2, 0, 2, 0>>, <<1, 0>>) >>
 DatePool == << DATE(2020, 1, 2), DATE(1999, 12, 31), DATE(2024, 2, 29), DATE(1, 1, 1), DATE(9999, 12, 31), DATE(2020, 10, 10) >>
@@ -213,6 +213,10 @@ CornerCases ==
       <<KW("JOURNAL"), ID("at")>>, <<KW("JOURNAL"), ID("at"), ID("at")>>, <<KW("PRINT")>>, <<KW("PRINT"), KW("FROM")>>,
       <<KW("BALANCES"), KW("WHERE"), A, KW("FROM"), A>>, <<KW("SELECT")>>, <<>>, <<A>>,
       <<KW("PRINT"), KW("FROM"), A, KW("WHERE"), A>>, <<KW("JOURNAL"), STR("s1"), STR("s1")>> }
+\* every reserved word where an identifier is expected (never an identifier)
+KeywordCases ==
+    UNION { { SelToks(<<KW(w)>>), SelToks(<<A, KW("AS"), KW(w)>>), SelToks(<<A, P("."), KW(w)>>),
+              SelToks(<<KW(w), P("("), A, P(")")>>), <<KW("BALANCES"), ID("at"), KW(w)>> } : w \in Keywords }
 \* identifiers that begin with a word of the grammar and an underscore
 KwPrefixIds == << "not_x", "select_1", "true_x", "false_y", "null_count", "open_date", "close_d", "clear_z",
                   "and_b", "in_b", "or_c", "as_of", "from_d", "desc_r", "on_x", "at_y", "between_z", "is_it" >>
@@ -226,7 +230,7 @@ EmitFixed ==
     /\ salt = salt
     /\ ("lit" \in GenFam => \A ts \in LitCases : Case("lit", ts))
     /\ ("chain" \in GenFam => \A ts \in ChainCases : Case("chain", ts))
-    /\ ("corner" \in GenFam => \A ts \in CornerCases : Case("corner", ts))
+    /\ ("corner" \in GenFam => \A ts \in CornerCases \cup KeywordCases : Case("corner", ts))
     /\ ("kwprefix" \in GenFam => \A ts \in KwPrefixCases : Case("kwprefix", ts))
 FInit == fam = "fixed" /\ e = X /\ d = 0 /\ q = Q0 /\ salt = 0
 FNext == FALSE /\ UNCHANGED gvars
